@@ -54,6 +54,13 @@ pub struct RunResult {
 }
 
 impl RunResult {
+    /// clap rejected the command line (status 2 and its usage text)
+    pub fn usage_error(&self) -> bool {
+        self.exit == Exit::Code(2) && {
+            let e = String::from_utf8_lossy(&self.stderr);
+            e.contains("Usage:") || e.contains("For more information, try '--help'")
+        }
+    }
     pub fn crashed(&self) -> Option<String> {
         match self.exit {
             Exit::Signal(libc::SIGALRM) => Some("timeout: killed by the wall-clock backstop (real hang)".into()),
@@ -61,10 +68,12 @@ impl RunResult {
             Exit::Code(c) if c == EXIT_HANG => Some("HANG: compiler blocked and no generator can take a step".into()),
             Exit::Code(c) if c == EXIT_BUDGET => Some("step budget exceeded".into()),
             Exit::Code(101) => Some(format!("panic: {}", String::from_utf8_lossy(&self.stderr).lines().find(|l| l.contains("panicked")).unwrap_or("").trim())),
-            Exit::Code(0) | Exit::Code(1) => None,
-            // clap usage errors exit with 2: not a crash, the caller decides
-            Exit::Code(2) => None,
-            Exit::Code(c) => Some(format!("unexpected exit code {c}")),
+            Exit::Code(c) if c == EXIT_SEAM_MISUSE => Some("seam misuse (exit 96)".into()),
+            // main.rs gives up with this status when it cannot encode the request
+            Exit::Code(79) => Some("fatal: the compiler gave up with its 'critical error' exit status 79".into()),
+            // Any other status is just "zero" or "non-zero": the statement does not fix the value (a compiler that
+            // reports, say, the number of errors is as right as one that always says 1).
+            Exit::Code(_) => None,
         }
     }
     pub fn hang_detail(&self) -> Option<String> {
